@@ -155,6 +155,20 @@ pub fn gen_sensitive(t: &mut Tape, flags: u32) -> Option<GenProg> {
                 let n = *t.pick(&sizes);
                 let mut b = t.bytes(n);
                 b[0] = 0x01;
+                // one in three operands is a small value behind redundant sign-extension bytes: its atom is longer
+                // than a limit while its magnitude is tiny (what a limit measures must not change what is charged)
+                if t.chance(1, 3) {
+                    let fill = if t.flip() { 0x00u8 } else { 0xff };
+                    let keep = 1 + t.below_usize(3);
+                    for x in b.iter_mut().take(n - keep) {
+                        *x = fill;
+                    }
+                    if fill == 0 {
+                        b[n - keep] &= 0x7f;
+                    } else {
+                        b[n - keep] |= 0x80;
+                    }
+                }
                 let a = d.atom(&b);
                 q(d, a)
             };
